@@ -114,7 +114,11 @@ func (x *exec) callFunction(st *State, cs *callSite, fn *ssa.Function, bind []Va
 		x.contractCall(st, cs, fn, ct, key, fn.Signature, args, k)
 		return
 	}
-	if fn.Parent() != nil || (ct != nil && ct.Inline) || (ct == nil && fn.Synthetic != "" && len(fn.Blocks) > 0 && inModule(fn)) {
+	autoInline := ct == nil && inModule(fn) && fn.Parent() == nil && fn.Synthetic == "" && x.smallStraightHelper(st, fn)
+	if autoInline {
+		x.ctx.note("uncontracted module helper inlined at its call site (loop-free, small): " + key)
+	}
+	if autoInline || fn.Parent() != nil || (ct != nil && ct.Inline) || (ct == nil && fn.Synthetic != "" && len(fn.Blocks) > 0 && inModule(fn)) {
 		if len(fn.Blocks) == 0 {
 			x.unknownCall(st, cs, key, inModule(fn), rt, k)
 			return
@@ -139,6 +143,48 @@ func (x *exec) callFunction(st *State, cs *callSite, fn *ssa.Function, bind []Va
 		return
 	}
 	x.unknownCall(st, cs, key, inModule(fn), rt, k)
+}
+
+// smallStraightHelper: a module function without contract that can be executed in place of its call: it has a
+// body, no loop, no defer/go/select, at most 80 instructions, and is not already being executed (no recursion).
+// Such a function is what "extract these lines into a helper" produces; running its body is exact, whereas
+// treating it as an unknown callee would havoc the whole heap.
+func (x *exec) smallStraightHelper(st *State, fn *ssa.Function) bool {
+	if len(fn.Blocks) == 0 || len(st.frames) >= 8 {
+		return false
+	}
+	for _, fr := range st.frames {
+		if fr.fn == fn {
+			return false
+		}
+	}
+	// cycle detection (depth-first, three colours)
+	colour := make([]int, len(fn.Blocks))
+	var cyclic func(b *ssa.BasicBlock) bool
+	cyclic = func(b *ssa.BasicBlock) bool {
+		colour[b.Index] = 1
+		for _, s := range b.Succs {
+			if colour[s.Index] == 1 || (colour[s.Index] == 0 && cyclic(s)) {
+				return true
+			}
+		}
+		colour[b.Index] = 2
+		return false
+	}
+	if cyclic(fn.Blocks[0]) {
+		return false
+	}
+	n := 0
+	for _, b := range fn.Blocks {
+		for _, in := range b.Instrs {
+			n++
+			switch in.(type) {
+			case *ssa.Defer, *ssa.Go, *ssa.Select, *ssa.RunDefers:
+				return false
+			}
+		}
+	}
+	return n <= 80
 }
 
 // unknownCall: a callee without contract. Module functions havoc everything (sound);
